@@ -18,9 +18,10 @@ from . import terms as T
 
 
 class Op:
-    __slots__ = ('kind', 'obj', 'args', 'res', 'pos', 'label')
+    __slots__ = ('kind', 'obj', 'args', 'res', 'pos', 'label', 'fn')
 
-    def __init__(self, kind, obj=None, args=(), res=None, pos='', label=''):
+    def __init__(self, kind, obj=None, args=(), res=None, pos='', label='', fn=''):
+        self.fn = fn
         self.kind = kind
         self.obj = obj
         self.args = args
@@ -29,7 +30,8 @@ class Op:
         self.label = label
 
     def __repr__(self):
-        return '%s(%s)%s' % (self.kind, self.obj if self.obj is not None else '', ('@' + self.pos.rsplit('/', 1)[-1]) if self.pos else '')
+        return '%s(%s)%s%s' % (self.kind, self.obj if self.obj is not None else '', ('@' + self.pos.rsplit('/', 1)[-1]) if self.pos else '',
+                               (' in ' + self.fn) if self.fn else '')
 
 
 class ThreadRec:
@@ -75,11 +77,17 @@ def world(I):
     return g['bmc']
 
 
+def short_fn(name):
+    """'(*berty.tech/weshnet/v2.ConnectednessManager).updateStatus' -> '(*ConnectednessManager).updateStatus'"""
+    import re
+    return re.sub(r'[A-Za-z0-9_./\-]+/', '', name)
+
+
 def rec(I, kind, obj=None, args=(), res=None, ins=None, label=''):
     w = world(I)
     if w.cur is None:
         return False
-    w.cur.ops.append(Op(kind, obj, args, res, (ins or {}).get('pos', ''), label))
+    w.cur.ops.append(Op(kind, obj, args, res, (ins or {}).get('pos', ''), label, short_fn(I.callstack[-1]) if I.callstack else ''))
     return True
 
 
